@@ -8,6 +8,11 @@ Open Scope N_scope.
 Definition TAB : string := String (ascii_of_N 9) EmptyString.
 Definition out3 (m s k : string) : string := m ++ TAB ++ s ++ TAB ++ k.
 
+Fixpoint before_bar (l : list string) : list string :=
+  match l with [] => [] | x :: r => if String.eqb x "|" then [] else x :: before_bar r end.
+Fixpoint after_bar (l : list string) : list string :=
+  match l with [] => [] | x :: r => if String.eqb x "|" then r else after_bar r end.
+
 Definition dispatch (kind : string) (args : list string) : string :=
   (* hist: all frames through one receive buffer; histf: a fresh buffer per frame.  The model does not
      distinguish them (retained fields are values): any difference is a correspondence failure. *)
@@ -27,26 +32,31 @@ Definition dispatch (kind : string) (args : list string) : string :=
         end
     | None => BADARGS
     end
-  else if String.eqb kind "stale" then
-    (* the same, on a handler that found a lease file written under other prefix lengths;
-       ops carry IP source 0 (Session.Parse then leaves the session alone whatever the NIC prefix) *)
+  else if String.eqb kind "restart" then
+    (* restart CFG_A CFG_B opsA | opsB : a handler of configuration A runs opsA and leaves its lease file;
+       a handler of configuration B starts on that file and runs opsB.  Observation: run 2.  The spec
+       column judges run 2 against configuration B. *)
     match parse_cfg args with
-    | Some (c, hb :: nb :: rest) =>
-        match N_of_dec hb, N_of_dec nb, parse_ops rest with
-        | Some hb, Some nb, Some ops =>
-            if forallb (fun o => match op_msg o with Some m => m_src m =? 0 | None => true end) ops then
-              let cm := loaded_cfg c hb nb in
-              let h := with_ch0 ops in
-              let '(s, rs) := run cm (init cm) h in
-              let obs := show_run s rs in
-              let tr := trace cm (init cm) h in
-              let fs := map (c12_fails c) tr in
-              if all_nil fs then out3 obs obs "-"
-              else out3 obs ("viol " ++ show_fails fs) (hist_key (c12_class c) (combine tr fs) None)
-            else BADARGS
-        | _, _, _ => BADARGS
+    | Some (cA, rest) =>
+        match parse_cfg rest with
+        | Some (cB, rest2) =>
+            match parse_ops (before_bar rest2), parse_ops (after_bar rest2) with
+            | Some opsA, Some opsB =>
+                let '(sA, saved) := run_saving cA (init cA) [] (with_ch0 opsA) in
+                let cL := loaded_cfg (c_sub cA) cB in
+                let s0 := restart_state (c_sub cA) cB saved in
+                let h := with_ch0 opsB in
+                let '(s, rs) := run cL s0 h in
+                let obs := show_run s rs in
+                let tr := trace cL s0 h in
+                let fs := map (c12_fails cL) tr in
+                if all_nil fs then out3 obs obs "-"
+                else out3 obs ("viol " ++ show_fails fs) (hist_key (c12_class cL) (combine tr fs) None)
+            | _, _ => BADARGS
+            end
+        | None => BADARGS
         end
-    | _ => BADARGS
+    | None => BADARGS
     end
   else BADARGS.
 
